@@ -37,6 +37,9 @@ def run(ctx: Ctx):
     from .common import generic_lints
 
     generic_lints(ctx)
+    from .common import nullable_key_agreement
+
+    nullable_key_agreement(ctx)
     from . import c05
 
     c05.order_inputs_payload(ctx)
